@@ -383,3 +383,26 @@ Theorem c01_src_written_fields_v2 : forall enc zip thr has_c p n h b p',
   /\ go_V2Header_Checksum (zbytes h) = GoSem.Ok (Z.of_N (crc32 (firstn 16 h ++ skipn 20 h ++ b))).
 Proof. exact src_written_fields_v2. Qed.
 Print Assumptions c01_src_written_fields_v2.
+
+(* ---------------------------------------------------------------------------------- *)
+(* tie to the source, the header WRITERS (C01/SourcePack.v): V1Header.Pack and V2Header.Pack
+   regenerated from codec/v1_header.go / v2_header.go together with bigEndianPut and
+   encoding/binary bigEndian.PutUint16 / PutUint32 (the IPacket getters are externs: their
+   results are inputs) write, into every buffer of header length and without panicking,
+   exactly the bytes of the model's header encoder pack_v1 / pack_v2 *)
+From FV Require Import C01.SourcePack.
+
+Theorem c01_src_pack_v1 : forall (p : packet) (size : N) (h : bytes),
+  length h = 14%nat ->
+  go_V1Header_Pack (zbytes h) (Z.of_N size) (p_typ p) (Z.of_N (p_flag p)) (Z.of_N (p_seq p)) (p_cmd p)
+  = GoSem.Ok (zbytes (pack_v1 p size h)).
+Proof. exact src_pack_v1. Qed.
+Print Assumptions c01_src_pack_v1.
+
+Theorem c01_src_pack_v2 : forall (p : packet) (nref size : N) (h : bytes),
+  length h = 20%nat -> nref < 256 -> p_node p < 4294967296 ->
+  go_V2Header_Pack (zbytes h) (Z.of_N nref) (Z.of_N size) (p_typ p) (Z.of_N (p_flag p))
+    (Z.of_N (p_seq p)) (Z.of_N (p_node p)) (p_cmd p)
+  = GoSem.Ok (zbytes (pack_v2 p nref size h)).
+Proof. exact src_pack_v2. Qed.
+Print Assumptions c01_src_pack_v2.
